@@ -3,7 +3,7 @@
    N, positive, comparison, nat stay extracted datatypes.  No Extract Constant. *)
 From Coq Require Import Extraction ExtrOcamlBasic.
 From Coq Require Import List NArith.
-From JS Require Import Model.Base Model.Shape Model.Sem Model.Subset Model.Merger Model.Infer Model.Api Model.Repr.
+From JS Require Import Model.Base Model.Shape Model.Sem Model.Subset Model.Merger Model.Infer Model.Api Model.Repr Model.Cost.
 Extraction Language OCaml.
 Set Extraction AccessOpaque.
 Extraction "Model.ml"
@@ -14,4 +14,5 @@ Extraction "Model.ml"
   merger merge no_null_array
   infer_text infer_value array_text array_value conflict_free key_conflict
   from_sources_tree is_superset_tree is_superset_checked_tree
-  ser de ser_text display ident_keys.
+  ser de ser_text display ident_keys
+  subset_c merger_c calls_infer.
